@@ -2,6 +2,10 @@
 
 package ipmi
 
+import "hash"
+
+var _ hash.Hash
+
 // Contracts for the layer decoders of pkg/ipmi (machine-checked by
 // /verif/engine; see /verif/DESIGN.md). Every block puts its function under
 // the zero-annotation safety sweep of C05 and, where `C17` is listed, under
@@ -376,6 +380,11 @@ package ipmi
 //@ ensures [C07.v2-oem] result == nil && data[1]%64 == 2 ==> uint32(s.Enterprise) == le32(data, 2) && s.PayloadID == le16(data, 6) && s.ID == le32(data, 8) && s.Sequence == le32(data, 12) &&
 //@    s.Length == le16(data, 16) && aliases(s.Contents, data, 0, 18) && aliases(s.Payload, data, 18, 18+int(s.Length))
 //@ ensures [C04.v2-unauth] result == nil && !bit(data[1], 6) ==> s.Pad == 0 && len(s.Signature) == 0
+//@ at executeHash assert [C04.sig-range] arg[hash.Hash](0) == s.IntegrityAlgorithm && aliases(s.Signature, data, len(data)-len(s.Signature), len(data)) &&
+//@    aliases(arg[[]byte](1), data, 0, len(data)-len(s.Signature))
+//@ ensures [C04.v2-signed] result == nil && bit(data[1], 6) && !isnil(s.IntegrityAlgorithm) ==> len(s.Signature) == hSizeOf(s.IntegrityAlgorithm) &&
+//@    hIsDigest(s.Signature, hAbsorb(old(hState(s.IntegrityAlgorithm)), data[:len(data)-len(s.Signature)]))
+//@ ensures [C04.v2-nohash] result == nil && bit(data[1], 6) && isnil(s.IntegrityAlgorithm) ==> len(s.Signature) == 0
 
 // SpecAESKeyByte: byte k of the key the layer's cipher was created with (ghost of aes.NewCipher).
 func SpecAESKeyByte(a *AES128CBC, k int) byte { return aesKeyByte(a.cipher, k) }
